@@ -152,3 +152,53 @@ def run(ctx):
                                "the loop stores Err items of the row stream in its buffer instead of failing at once: after sorting, a later "
                                "LIMIT / SKIP can slice the error away and the query returns a partial result as if it were complete", c.loc())
     ctx.floor("C33.5", "buffering pushes in materialising loops", nb, 3)
+
+    # ---- clause 6: a size check must see the untruncated size ------------------------------------------------
+    # `check_collection_size(stage, v.len())` fails cleanly when v is too large.  If v was built through `.take(n)` / `truncate(n)` (an
+    # "early exit" bounded by the same limit) its length can never exceed the limit: the check is dead and an oversized result is silently
+    # cut instead of being refused.
+    from ..facts import op_local as _ol
+    from ..mirutil import peel_refs as _peel
+    ctx.rule("C33.6", "the collection measured by a check_collection_size call is not built through a length-limiting adaptor (take / truncate / step-limited range)")
+    CHECK = "check_collection_size"
+    LIMITERS6 = ("take", "truncate", "take_while")
+    n6 = 0
+    for i, b in sorted(F.bodies.items()):
+        if not i.startswith("nervusdb_query::executor::") or "::tests::" in i:
+            continue
+        k = 0
+        for c in b.calls():
+            if c.name.split("::")[-1] != CHECK or len(c.args) < 3:
+                continue
+            n6 += 1
+            # the measured vector: len(V) in the backward slice of the size argument
+            sl = _ol(c.args[2])
+            o = b.origin(sl) if sl is not None else None
+            measured = None
+            if o and o[0] == "call" and o[1].name.split("::")[-1] == "len" and o[1].args:
+                measured = _peel(b, _ol(o[1].args[0])) if _ol(o[1].args[0]) is not None else None
+            limited = []
+            if measured is not None:
+                # follow the construction chain of `measured` backwards: collect(adaptor(adaptor(...)))
+                cur = measured
+                for _ in range(8):
+                    oc = b.origin(cur)
+                    if not (oc and oc[0] == "call" and oc[1].args):
+                        break
+                    nm = oc[1].name.split("::")[-1]
+                    if nm in LIMITERS6:
+                        limited.append("%s at %s" % (nm, oc[1].loc()))
+                    nxt = _ol(oc[1].args[0])
+                    if nxt is None:
+                        break
+                    cur = _peel(b, nxt)
+                # in-place truncation of the measured vector before the check
+                for t_ in b.calls():
+                    if t_.name.split("::")[-1] in ("truncate",) and t_.args and _ol(t_.args[0]) is not None and _peel(b, _ol(t_.args[0])) == measured and b.dominates(t_.bb, c.bb):
+                        limited.append("truncate at %s" % t_.loc())
+            ctx.instance("C33.6", "%s: check_collection_size #%d measures %s; length-limited before the check: %s" % (i, k, ("_%d" % measured) if measured is not None else "a computed size", limited or "no"))
+            ctx.oblige(not limited, "C33.6", "%s:check#%d-on-truncated-collection" % (b.root or i, k),
+                       "the measured collection was already cut (%s): the limit check can never fire and an oversized result is silently truncated instead of "
+                       "failing with the limit error" % ", ".join(limited), c.loc())
+            k += 1
+    ctx.floor("C33.6", "check_collection_size sites in the executor", n6, 10)
